@@ -473,6 +473,15 @@ def build(tier, repo):
     chk.note_analysed("scratch_copy_loops", mr5.scratch_copy_bound_rule(r10, c, wrappers))
     r10.require(20)
     r6.require(150)
+    from .. import w7_rules as w7
+    r11 = chk.rule("C18-R11", "the default of ld<X> comes from X itself; every matrix read in a typed arm is tied to the switch subject by an id test; "
+                   "callback slots are saved, set and restored around the call; real/complex siblings return early under the same conditions",
+                   "size- and type-inconsistent arguments are refused; nested calls from a select callback keep the outer callback")
+    chk.note_analysed("ld_defaults", w7.ld_default_rule(r11, c, "lapack.c", wrappers))
+    chk.note_analysed("typed_arm_reads", w7.id_agreement_rule(r11, c, "lapack.c", wrappers))
+    chk.note_analysed("callback_slot_sets", w7.callback_restore_rule(r11, c, "lapack.c"))
+    chk.note_analysed("sibling_pairs", w7.sibling_return_rule(r11, c, "lapack.c", wrappers))
+    r11.require(200)
     return chk
 
 
